@@ -65,6 +65,7 @@ type bworld struct {
 	genesis map[string]*big.Int // denom -> funded at genesis
 	credits map[string][]string // prophecy id -> observed credits "recv|denom|amt"
 	credAll []string            // all observed credits "denom|amt"
+	minted  []string            // denominations observed entering the supply through the credit of a lock claim
 	locks   []string            // successful locks "denom|amt"
 	burns   []string            // successful burns "denom|amt"
 }
@@ -103,6 +104,7 @@ func (w *bworld) reset() {
 	w.genesis = map[string]*big.Int{}
 	w.credits = map[string][]string{}
 	w.credAll = nil
+	w.minted = nil
 	w.locks = nil
 	w.burns = nil
 }
@@ -214,6 +216,12 @@ func classify(err error) string {
 		return "err.funds"
 	case errors.Is(err, ethtypes.ErrInvalidClaimType):
 		return "err.ctype"
+	}
+	if strings.Contains(err.Error(), "can't be locked") {
+		return "err.pegged"
+	}
+	if strings.Contains(err.Error(), "can't be burned") {
+		return "err.native"
 	}
 	if strings.Contains(err.Error(), "only admin account") {
 		return "err.auth"
@@ -559,6 +567,7 @@ func (x *bexec) execTx(line, kind string, t []string) {
 		c := ethClaimOf(w, t)
 		id := prophecyID(c)
 		pb, foundB := w.prophecy(id)
+		peggyB := append([]string{}, w.app.EthbridgeKeeper.GetPeggyToken(w.ctx).Tokens...)
 		msg := ethtypes.NewMsgCreateEthBridgeClaim(c)
 		cls, _ := w.deliver(&msg)
 		pa, foundA := w.prophecy(id)
@@ -575,6 +584,15 @@ func (x *bexec) execTx(line, kind string, t []string) {
 		}
 		x.emit(line, ans, hcls, cls == "ok")
 		x.chkClaim(t, id, pb, foundB, pa, foundA, cls, balB, supB)
+		// C07: an accepted claim that turned the prophecy SUCCESS registers exactly the credited pegged denomination
+		if cls == "ok" && foundA && pa.Status.Text == oracletypes.StatusText_STATUS_TEXT_SUCCESS &&
+			(!foundB || pb.Status.Text == oracletypes.StatusText_STATUS_TEXT_PENDING) {
+			peggyA := append([]string{}, w.app.EthbridgeKeeper.GetPeggyToken(w.ctx).Tokens...)
+			sort.Strings(peggyB)
+			sort.Strings(peggyA)
+			x.emit(fmt.Sprintf("chk peggyreg tag=ethbridge.AddPeggyToken.registration final=%s peggyb=%s peggya=%s",
+				contentCanon(w, pa.Status.FinalClaim), listOrDash(peggyB), listOrDash(peggyA)), "true", "chk.peggyreg", true)
+		}
 	case "wl":
 		msg := ethtypes.MsgUpdateWhiteListValidator{CosmosSender: w.acctStr(t[0]), Validator: w.valStr(t[2]), OperationType: t[1]}
 		cls, _ := w.deliver(&msg)
@@ -703,6 +721,18 @@ func (x *bexec) chkClaim(t []string, id string, pb oracletypes.Prophecy, foundB 
 			kv := strings.SplitN(e, "=", 2)
 			if len(kv) == 2 {
 				w.credAll = append(w.credAll, kv[0]+"|"+kv[1])
+				// a denomination that enters the supply through the credit of a lock claim is a pegged token
+				if foundA && pa.Status.Text == oracletypes.StatusText_STATUS_TEXT_SUCCESS {
+					if oc, err := ethtypes.CreateOracleClaimFromOracleString(pa.Status.FinalClaim); err == nil && oc.ClaimType == ethtypes.ClaimType_CLAIM_TYPE_LOCK {
+						seen := false
+						for _, m := range w.minted {
+							seen = seen || m == kv[0]
+						}
+						if !seen {
+							w.minted = append(w.minted, kv[0])
+						}
+					}
+				}
 			}
 		}
 	}
@@ -727,8 +757,21 @@ func (x *bexec) chkPeg(kind string, t []string, cls string, bev []string, paused
 			shape = "receiver-listed-other-spelling"
 		}
 	}
-	x.emit(fmt.Sprintf("chk gate tag=ethbridge.%s.gate.%s kind=%s res=%s paused=%s bl=%s peggy=%s recv=%s symbol=%s", kind, shape, kind, cls, b2s(pausedB), listOrDash(blB), listOrDash(peggyB), t[2], t[4]),
-		"true", "chk.gate", pausedB || shape != "receiver-not-listed")
+	// shape of the input for the native/pegged clause: a token the bridge minted that the stored list does not contain
+	inList, wasMinted := false, false
+	for _, p := range peggyB {
+		inList = inList || p == t[4]
+	}
+	for _, m := range w.minted {
+		wasMinted = wasMinted || m == t[4]
+	}
+	if wasMinted && !inList {
+		shape += ".minted-token-not-in-peggy-list"
+	}
+	minted := append([]string{}, w.minted...)
+	sort.Strings(minted)
+	x.emit(fmt.Sprintf("chk gate tag=ethbridge.%s.gate.%s kind=%s res=%s paused=%s bl=%s peggy=%s minted=%s recv=%s symbol=%s", kind, shape, kind, cls, b2s(pausedB), listOrDash(blB), listOrDash(peggyB), listOrDash(minted), t[2], t[4]),
+		"true", "chk.gate", pausedB || shape != "receiver-not-listed" || wasMinted)
 	x.emit(fmt.Sprintf("chk fx tag=ethbridge.%s.effects kind=%s res=%s sender=%s chain=%s recv=%s amount=%s symbol=%s ceth=%s feeto=%s balb=%s bala=%s supb=%s supa=%s ev=%s",
 		kind, kind, cls, t[0], t[1], t[2], t[3], t[4], t[5], recvB, dumpMap(balB), dumpMap(balA), dumpMap(supB), dumpMap(supA), listOrDash(bev)), "true", "chk.fx", cls == "ok")
 	if cls == "ok" {
